@@ -32,6 +32,10 @@ You can obtain one at http://mozilla.org/MPL/2.0/.
 
 namespace libfive {
 
+#ifdef LIBFIVE_VERIF
+void (*verif_sched_point)(const char* site, const BRepSettings* settings) = nullptr;
+#endif
+
 std::unique_ptr<Mesh> Mesh::render(const Tree& t_, const Region<3>& r,
                                    const BRepSettings& settings)
 {
@@ -57,6 +61,7 @@ std::unique_ptr<Mesh> Mesh::render(
             settings.progress_handler->start({1, 1, 1});
         }
         auto t = DCWorkerPool<3>::build(es, r, settings);
+        LIBFIVE_VERIF_POINT("mesh.after_build", &settings);
 
         if (settings.cancel.load() || t.get() == nullptr) {
             if (settings.progress_handler) {
@@ -67,6 +72,7 @@ std::unique_ptr<Mesh> Mesh::render(
 
         // Perform marching squares
         out = Dual<3>::walk<DCMesher>(t, settings);
+        LIBFIVE_VERIF_POINT("mesh.after_walk", &settings);
 
         // TODO: check for early return here again
         t.reset(settings);
@@ -78,6 +84,7 @@ std::unique_ptr<Mesh> Mesh::render(
             settings.progress_handler->start({1, 1, 1});
         }
         auto t = SimplexWorkerPool<3>::build(es, r, settings);
+        LIBFIVE_VERIF_POINT("mesh.after_build", &settings);
 
         if (settings.cancel.load() || t.get() == nullptr) {
             if (settings.progress_handler) {
@@ -87,11 +94,13 @@ std::unique_ptr<Mesh> Mesh::render(
         }
 
         t->assignIndices(settings);
+        LIBFIVE_VERIF_POINT("mesh.after_assign", &settings);
 
         out = Dual<3>::walk_<SimplexMesher>(t, settings,
                 [&](PerThreadBRep<3>& brep, int i) {
                     return SimplexMesher(brep, &es[i]);
                 });
+        LIBFIVE_VERIF_POINT("mesh.after_walk", &settings);
         t.reset(settings);
     }
     else if (settings.alg == HYBRID)
@@ -101,6 +110,7 @@ std::unique_ptr<Mesh> Mesh::render(
             settings.progress_handler->start({1, 1, 1});
         }
         auto t = HybridWorkerPool<3>::build(es, r, settings);
+        LIBFIVE_VERIF_POINT("mesh.after_build", &settings);
 
         if (settings.cancel.load() || t.get() == nullptr) {
             if (settings.progress_handler) {
@@ -110,11 +120,13 @@ std::unique_ptr<Mesh> Mesh::render(
         }
 
         t->assignIndices(settings);
+        LIBFIVE_VERIF_POINT("mesh.after_assign", &settings);
 
         out = Dual<3>::walk_<HybridMesher>(t, settings,
                 [&](PerThreadBRep<3>& brep, int i) {
                     return HybridMesher(brep, &es[i]);
                 });
+        LIBFIVE_VERIF_POINT("mesh.after_walk", &settings);
         t.reset(settings);
     }
 
